@@ -5,5 +5,9 @@ import "fmt"
 var scenarios = map[string]func(e *engineA) error{}
 
 func runOther(cfg *RunConfig, rc *Recorder, res *Result) error {
+	switch cfg.Engine {
+	case "C":
+		return runEngineC(cfg, rc, res)
+	}
 	return fmt.Errorf("engine %q not implemented", cfg.Engine)
 }
